@@ -22,7 +22,7 @@ use proptest::prelude::*;
 use serde::{Deserialize, Serialize};
 use std::sync::Arc;
 
-const OLD: &str = "shard-0ld0";
+pub(crate) const OLD: &str = "shard-0ld0";
 const FIVE_MIN: i64 = 300_000_000_000;
 
 #[derive(Clone, Debug, Serialize, Deserialize)]
@@ -46,29 +46,29 @@ fn split_point() -> i64 {
     t0() + 2 * FIVE_MIN
 }
 
-fn old_shard_meta() -> ShardMetadata {
+pub(crate) fn old_shard_meta() -> ShardMetadata {
     ShardMetadata { shard_id: OLD.to_string(), generation: 0, key_range: (vec![0u8; 8], vec![0xff; 8]), replicas: vec![], state: ShardState::Active, min_time: t0(), max_time: t0() + 4 * FIVE_MIN }
 }
 
-struct World {
-    core: Arc<SimCore>,
-    s3: bool,
-    local: Arc<LocalMetadataClient>,
-    rows: Vec<(i64, String)>,
+pub(crate) struct World {
+    pub(crate) core: Arc<SimCore>,
+    pub(crate) s3: bool,
+    pub(crate) local: Arc<LocalMetadataClient>,
+    pub(crate) rows: Vec<(i64, String)>,
 }
 
 impl World {
-    fn md(&self, node: u32) -> Arc<dyn MetadataClient> {
+    pub(crate) fn md(&self, node: u32) -> Arc<dyn MetadataClient> {
         if self.s3 {
             Arc::new(ObjectStoreMetadataClient::new(self.core.node(node), ObjectStoreMetadataConfig::default()))
         } else {
             Arc::new(SimMetadata::new(node, self.core.clone(), self.local.clone()))
         }
     }
-    fn splitter(&self, node: u32) -> ShardSplitter {
+    pub(crate) fn splitter(&self, node: u32) -> ShardSplitter {
         ShardSplitter::new(self.md(node), self.core.node(node))
     }
-    async fn build(d: &Dataset) -> Result<World, String> {
+    pub(crate) async fn build(d: &Dataset) -> Result<World, String> {
         let core = SimCore::new();
         let mut w = World { core: core.clone(), s3: d.backend % 2 == 1, local: Arc::new(LocalMetadataClient::new()), rows: vec![] };
         let md: Arc<dyn MetadataClient> = if w.s3 { Arc::new(ObjectStoreMetadataClient::new(core.node(90), ObjectStoreMetadataConfig::default())) } else { w.local.clone() };
@@ -195,7 +195,7 @@ fn deletes_after_cutover(w: &World) -> Result<(), String> {
 const LONG: std::time::Duration = std::time::Duration::from_secs(200_000);
 
 /// run the split (or a resume) as a task; returns Ok(result) or Err(()) if it hangs (crashed node)
-async fn run_split(w: &World, node: u32, resume: bool) -> Result<Result<bool, String>, ()> {
+pub(crate) async fn run_split(w: &World, node: u32, resume: bool) -> Result<Result<bool, String>, ()> {
     let s = w.splitter(node);
     let h = tokio::spawn(async move {
         if resume {
@@ -419,7 +419,7 @@ pub fn exec_nested(c: &NestedCase) -> Outcome {
     })
 }
 
-fn dataset(ts_types: u8) -> impl Strategy<Value = Dataset> {
+pub(crate) fn dataset(ts_types: u8) -> impl Strategy<Value = Dataset> {
     (prop::collection::vec(prop::collection::vec(prop_oneof![2 => Just(0i8), 5 => -3i8..=3], 1..5).prop_map(|rels| DChunk { rels }), 1..4), 0u8..2, 0u8..ts_types).prop_map(|(chunks, backend, ts_type)| Dataset { chunks, backend, ts_type })
 }
 
